@@ -5,8 +5,8 @@
     clause, goht's imports once, and the user's imports in first-occurrence order without duplicates.
     (That the lexer's tokens for a Go line spell that line is part of the byte-exact correspondence, not of a theorem.)
     OBLIGATIONS: C11_go_code_verbatim C11_template_signature C11_header C11_imports_no_duplicates C11_imports_keep_order
-                 C11_import_not_lost C11_nonvacuous *)
-From GV Require Import Compiler.Compile Proofs.EmitProofs Proofs.PassThroughProofs.
+                 C11_import_not_lost C11_accepted_file C11_nonvacuous *)
+From GV Require Import Compiler.Compile Proofs.EmitProofs Proofs.PassThroughProofs Proofs.ParserShapeProofs.
 Open Scope N_scope.
 
 Theorem C11_go_code_verbatim : forall toks ch,
@@ -43,6 +43,18 @@ Theorem C11_import_not_lost : forall user t,
   mem_bytes (t_lit t) c_rootImports = true \/ In (t_lit t) (map t_lit (add_import user t)).
 Proof. exact add_import_present. Qed.
 Print Assumptions C11_import_not_lost.
+
+(** end to end, for EVERY input the command-line generator accepts: the root of the tree holds Go-code runs and
+    templates only, its import list is free of duplicates and of goht's own imports, and the generated file is
+    the header followed by each item's own code, in order *)
+Theorem C11_accepted_file : forall input out,
+  cli_generate input = Some out ->
+  exists pkg user items,
+    compile_parse input = ODone (Node (KRoot pkg user) items) None /\
+    imports_wf user /\ Forall item items /\ Forall (fun n => item_err n = None) items /\
+    out = header_text pkg user ++ List.concat (map item_text items).
+Proof. exact accepted_file_is_header_and_items. Qed.
+Print Assumptions C11_accepted_file.
 
 (** a real file: its root has well-formed imports although the source repeats one and names one of goht's own;
     the Go lines come out as written *)
